@@ -134,6 +134,10 @@ func (h accountsResourceHandler) Expand(opts common.ResourceQuery[any], property
 		if opts.UsePIT() && !h.store.ledger.HasFeature(features.FeatureMovesHistory, "ON") {
 			return nil, nil, common.NewErrInvalidQuery("feature %s must be 'ON' to use effectiveVolumes at a point in time", features.FeatureMovesHistory)
 		}
+	default:
+		// the property names the output column of the expansion: anything else than the two known ones must not
+		// reach the SQL text
+		return nil, nil, common.NewErrInvalidQuery("unknown expansion '%s'", property)
 	}
 
 	selectRowsQuery := h.store.newScopedSelect().
